@@ -276,7 +276,9 @@ where
             // Skip if outside boundary.
             if !model.within_boundary(&state) {
                 log::trace!("Found state outside of boundary");
-                break;
+                // return not break here as we do not know if the previous state is terminal:
+                // it may have other successors inside the boundary.
+                return;
             }
 
             // add the current fingerprint to the path
@@ -352,7 +354,7 @@ where
             }
             if !is_awaiting_discoveries {
                 log::trace!("Found all discoveries");
-                break;
+                return;
             }
 
             // generate the possible next actions
